@@ -652,6 +652,10 @@ impl FatVolume {
                     } else {
                         func(de, None)
                     }
+                    if !odde.is_lfn() {
+                        // a long name belongs to the one entry that follows it
+                        seq_state = SeqState::Waiting;
+                    }
                 })
             }
             FatSpecificInfo::Fat32(fat32_info) => {
@@ -668,6 +672,10 @@ impl FatVolume {
                         }
                     } else {
                         func(de, None)
+                    }
+                    if !odde.is_lfn() {
+                        // a long name belongs to the one entry that follows it
+                        seq_state = SeqState::Waiting;
                     }
                 })
             }
